@@ -246,8 +246,8 @@ MonApply(m, e) ==
     [] e.ev = "expire" /\ e.fid # "" ->
          [m EXCEPT !.expired = @ \cup {<<e.c, e.i, e.slots[1]>>}]
     [] e.ev = "iter" ->
-         LET conns == {x.n : x \in {y \in SeqRange(e.seen) : y.k = "s"}}
-             clis  == {x.n : x \in {y \in SeqRange(e.seen) : y.k = "c"}}
+         LET conns == {e.seen[x].n : x \in {y \in DOMAIN e.seen : e.seen[y].k = "s"}}
+             clis  == {e.seen[x].n : x \in {y \in DOMAIN e.seen : e.seen[y].k = "c"}}
              newrd == UNION {At(m.unread, cn, {}) : cn \in conns}
              eof   == conns \ m.dirty      \* one read per event: pending bytes first, end-of-file next time
              newnt == UNION {At(m.lostp, cn, {}) : cn \in eof}
